@@ -328,24 +328,32 @@ func armorCase(c *vf.Ctx, i int, r *rand.Rand, nMut int, allBytes bool) {
 		s2[p] ^= byte(1) << uint(r.IntN(8))
 		t.mustFail("salt-byte", p, rearm(data, fmt.Sprintf("%X", s2)), t.pass, nil)
 	}
-	// armor text mutations: one base64 character of the body / CRC replaced
-	ntext := 24
-	if allBytes {
-		ntext = be - bs
+	// armor text mutations: one base64 character of the body / CRC replaced. The armor text depends on the
+	// CSPRNG salt/nonce, so positions are picked by index into the list of base64 characters (whose length is
+	// fixed by the key type) and a replacement equal to the original is bumped, keeping the case count seed-determined.
+	var bodyPos []int
+	for p := bs; p < be; p++ {
+		if t.arm[p] != '\n' && t.arm[p] != '=' {
+			bodyPos = append(bodyPos, p)
+		}
 	}
-	for j := 0; j < ntext; j++ {
-		p := bs + j
-		if !allBytes {
-			p = bs + r.IntN(be-bs)
-		}
-		if t.arm[p] == '\n' || t.arm[p] == '=' {
-			continue
-		}
+	other := func(p int) byte {
 		ch := b64alpha[r.IntN(64)]
 		if ch == t.arm[p] {
-			continue
+			ch = b64alpha[(strings.IndexByte(b64alpha, ch)+1)%64]
 		}
-		m := t.arm[:p] + string(ch) + t.arm[p+1:]
+		return ch
+	}
+	ntext := 24
+	if allBytes {
+		ntext = len(bodyPos)
+	}
+	for j := 0; j < ntext; j++ {
+		p := bodyPos[j%len(bodyPos)]
+		if !allBytes {
+			p = bodyPos[r.IntN(len(bodyPos))]
+		}
+		m := t.arm[:p] + string(other(p)) + t.arm[p+1:]
 		_, _, _, d3, ok3 := armorBody(m)
 		if ok3 && bytes.Equal(d3, data) {
 			// only unused trailing bits of the last base64 quantum changed: the ciphertext BYTES are unmodified.
@@ -363,13 +371,9 @@ func armorCase(c *vf.Ctx, i int, r *rand.Rand, nMut int, allBytes bool) {
 		}
 		t.mustFail("armor-text-char", p, m, t.pass, nil)
 	}
-	for j := 0; j < 4; j++ {
+	for j := 0; j < 4 && crc+j < len(t.arm); j++ {
 		p := crc + j
-		ch := b64alpha[r.IntN(64)]
-		if p >= len(t.arm) || ch == t.arm[p] {
-			continue
-		}
-		t.mustFail("armor-crc-char", p, t.arm[:p]+string(ch)+t.arm[p+1:], t.pass, nil)
+		t.mustFail("armor-crc-char", p, t.arm[:p]+string(other(p))+t.arm[p+1:], t.pass, nil)
 	}
 	t.mustFail("header-kdf-changed", 0, strings.Replace(t.arm, "kdf: bcrypt", "kdf: bcrypT", 1), t.pass, nil)
 }
@@ -1136,7 +1140,7 @@ func run(c *vf.Ctx) {
 
 	// hd + bip39 first (cheap)
 	hdVectors(c)
-	nHD := c.N(1500, 40000)
+	nHD := c.N(1200, 40000)
 	c.Parallel(nHD, workers, 1000, func(i int, r *rand.Rand) { hdCase(c, i, r) })
 	nB44 := c.N(300, 8000)
 	c.Parallel(nB44, workers, 100000, func(i int, r *rand.Rand) { bip44Case(c, i, r) })
@@ -1152,17 +1156,17 @@ func run(c *vf.Ctx) {
 	c.Logf("bip39 done")
 
 	// bcrypt-bound parts
-	nArm := c.N(28, 140)
-	nMut := c.N(10, 0)
+	nArm := c.N(14, 140)
+	nMut := c.N(8, 0)
 	c.Parallel(nArm, workers, 400000, func(i int, r *rand.Rand) { armorCase(c, i, r, nMut, !c.Quick()) })
 	c.Logf("armor done")
-	nKb := c.N(14, 100)
+	nKb := c.N(7, 100)
 	c.Parallel(nKb, workers, 500000, func(i int, r *rand.Rand) { keybaseCase(c, i, r, wl) })
 	nWin := c.N(4, 16)
 	c.Parallel(nWin, workers, 600000, func(i int, r *rand.Rand) { bcryptWindowCase(c, i, r) })
 	c.Parallel(c.N(20, 200), workers, 700000, func(i int, r *rand.Rand) { plainArmorCase(c, i, r) })
 
-	c.Set("bcrypt_note", fmt.Sprintf("bcrypt cost 2^%d ≈ 0.2 s per key derivation: quick tier runs %d armor cases (%d sampled ciphertext positions each) and %d keybase cases; thorough mutates every ciphertext byte of %d armor cases", bcryptCost, c.N(28, 140), c.N(10, 0), c.N(14, 100), 140))
+	c.Set("bcrypt_note", fmt.Sprintf("bcrypt cost 2^%d ≈ 0.2 s per key derivation: quick tier runs %d armor cases (%d sampled ciphertext positions each) and %d keybase cases; thorough mutates every ciphertext byte of %d armor cases", bcryptCost, nArm, nMut, nKb, 140))
 	c.Assume("salt and secretbox nonce are drawn from the OS CSPRNG by the code under test; armor texts are not seed-reproducible, oracle outcomes do not depend on them")
 	c.Assume("tm2/pkg/crypto/armor (OpenPGP armor codec) is used as a tool to re-armor mutated ciphertext; golang.org/x/crypto secretbox and tm2 bcrypt are used by the format twin")
 	c.Assume("BIP-32 degenerate steps (IL ≥ n or zero child key, probability ≈ 2^-127) are skipped if the reference meets one")
